@@ -32,7 +32,9 @@ func FuzzTLVDifferential(f *testing.F) {
 			continue
 		}
 		f.Add(flat(n))
-		f.Add(wideFamily(n, 3, 7, []tmpl{{tag: []byte{0x04}, val: []byte{1}}, {tag: []byte{0x5F, 0x1F}, long: true}}))
+		if n <= 200 { // keep the corpus light: the large layouts are covered by TestLimits
+			f.Add(wideFamily(n, 3, 7, []tmpl{{tag: []byte{0x04}, val: []byte{1}}, {tag: []byte{0x5F, 0x1F}, long: true}}))
+		}
 	}
 	f.Add(der.Seq(der.IntFromInt64(3), der.OID("2.23.136.1.1.1"), der.Explicit(0, der.OctetString(make([]byte, 200))), der.SetSorted(der.UTF8("x"), der.Null())))
 	f.Add(der.TLVLen([]byte{0x30}, der.Cat(der.TLVLen([]byte{0x04}, make([]byte, 300), der.LongNonMinimal(1)), der.TLVLen([]byte{0xA0}, der.Null(), der.Indefinite)), der.Indefinite))
